@@ -100,4 +100,156 @@ theorem shiftRank_eq (ev : List Int) (r : Nat) (s : NodeIds) (hs : s.keys.Pairwi
     rw [shiftTail_eq _ _ _ hs]
     rfl
 
+/-! ### windows of a list of lists -/
+
+theorem flatten_mapIdx_window {α β : Type} (f : List α → List β) (L : List (List α)) : ∀ a0 a1 : Nat,
+    (L.mapIdx fun r u => if a0 ≤ r ∧ r < a1 then f u else []).flatten
+      = (((L.take a1).drop a0).map f).flatten := by
+  induction L with
+  | nil => intro a0 a1; simp
+  | cons u L ih =>
+    intro a0 a1
+    rw [List.mapIdx_cons]
+    have hshift : (fun (i : Nat) (u : List α) => if a0 ≤ i + 1 ∧ i + 1 < a1 then f u else [])
+        = fun i u => if a0 - 1 ≤ i ∧ i < a1 - 1 then f u else [] := by
+      funext i u
+      have : (a0 ≤ i + 1 ∧ i + 1 < a1) ↔ (a0 - 1 ≤ i ∧ i < a1 - 1) := by omega
+      simp only [this]
+    rw [hshift, List.flatten_cons, ih (a0 - 1) (a1 - 1)]
+    cases a1 with
+    | zero => simp
+    | succ n =>
+      cases a0 with
+      | zero => simp
+      | succ m => simp
+
+theorem take_flatten_split {α : Type} (L : List (List α)) (a0 a1 : Nat) (h : a0 ≤ a1) :
+    (L.take a1).flatten = (L.take a0).flatten ++ ((L.take a1).drop a0).flatten := by
+  have : L.take a1 = (L.take a1).take a0 ++ (L.take a1).drop a0 := (List.take_append_drop a0 _).symm
+  conv_lhs => rw [this]
+  rw [List.flatten_append, List.take_take, Nat.min_eq_left h]
+
+theorem sum_drop_take (l : List Int) (a b : Nat) (h0 : ∀ x ∈ l.take a, x = 0)
+    (h1 : ∀ x ∈ (l.drop a).drop b, x = 0) : ((l.drop a).take b).sum = l.sum := by
+  have hz : ∀ (m : List Int), (∀ x ∈ m, x = 0) → m.sum = 0 := by
+    intro m hm
+    induction m with
+    | nil => rfl
+    | cons x xs ih =>
+      rw [List.sum_cons, hm x (by simp), ih (fun y hy => hm y (by simp [hy]))]; rfl
+  have : l = l.take a ++ ((l.drop a).take b ++ (l.drop a).drop b) := by
+    rw [List.take_append_drop, List.take_append_drop]
+  conv_rhs => rw [this]
+  rw [List.sum_append, List.sum_append, hz _ h0, hz _ h1]; omega
+
+/-! ### the slice loop of `ref_node_eliminate_unused_globals` -/
+
+/-- the sorted local unused list of one rank (`ref_sort_in_place_glob` at the top of the function) -/
+def sortedUnused (s : NodeIds) : List Int := sortGlob (unusedArr s)
+/-- per rank -/
+def Us (w : World NodeIds) : List (List Int) := w.map sortedUnused
+/-- the unused ids of the ranks already processed when the slice starting at rank `a` begins -/
+def Pfx (w : World NodeIds) (a : Nat) : List Int := ((Us w).take a).flatten
+/-- the loop state when the slice starting at rank `a` begins -/
+def loopState (w : World NodeIds) (a : Nat) : World ElimSt :=
+  w.mapIdx fun r s => ⟨s.keys.map (elim (Pfx w a)), if r < a then [] else (sortedUnused s).map (elim (Pfx w a))⟩
+def countsOf (w : World NodeIds) : List Int := w.map fun s => (s.nUnused : Int)
+
+structure ElimHyp (w : World NodeIds) : Prop where
+  nodup : (Us w).flatten.Nodup
+  keys_sorted : ∀ s ∈ w, s.keys.Pairwise (· ≤ ·)
+  keys_disj : ∀ s ∈ w, ∀ g ∈ s.keys, g ∉ (Us w).flatten
+
+theorem sortedUnused_length (s : NodeIds) : (sortedUnused s).length = s.nUnused := by
+  unfold sortedUnused NodeIds.nUnused
+  rw [(sortGlob_perm _).length_eq]; simp [unusedArr]
+
+/-- the contribution of every rank to the gather of the slice `[a0, a1)` -/
+def sliceLocals (w : World NodeIds) (a0 a1 : Nat) : List (List Int) :=
+  w.mapIdx fun r s => if a0 ≤ r ∧ r < a1 then (sortedUnused s).map (elim (Pfx w a0)) else []
+
+theorem activeCounts_eq (w : World NodeIds) (a0 a1 : Nat) :
+    activeCounts (countsOf w) a0 a1 = Refine.Lemmas.Comm.lensI (sliceLocals w a0 a1) := by
+  unfold activeCounts countsOf sliceLocals Refine.Lemmas.Comm.lensI
+  apply List.ext_getElem
+  · simp
+  · intro i h1 h2
+    simp only [List.getElem_mapIdx, List.getElem_map]
+    split
+    · simp [sortedUnused_length]
+    · simp
+
+theorem activeCounts_getElem (counts : List Int) (a0 a1 i : Nat) (h : i < (activeCounts counts a0 a1).length) :
+    (activeCounts counts a0 a1)[i] = if a0 ≤ i ∧ i < a1 then counts[i]'(by simpa [activeCounts] using h) else 0 := by
+  simp [activeCounts]
+
+theorem loopState_length (w : World NodeIds) (a : Nat) : (loopState w a).length = w.length := by
+  simp [loopState]
+
+theorem sliceLocals_length (w : World NodeIds) (a0 a1 : Nat) : (sliceLocals w a0 a1).length = w.length := by
+  simp [sliceLocals]
+
+theorem sliceLocal_elem (w : World NodeIds) (a0 a1 : Nat) (i : Nat) (hi : i < w.length) :
+    ((loopState w a0)[i]'(by rw [loopState_length]; exact hi)).unused.take
+        ((activeCounts (countsOf w) a0 a1).getD i 0).toNat
+      = (sliceLocals w a0 a1)[i]'(by rw [sliceLocals_length]; exact hi) := by
+  have hac : (activeCounts (countsOf w) a0 a1).getD i 0
+      = if a0 ≤ i ∧ i < a1 then ((w[i]).nUnused : Int) else 0 := by
+    have hl : i < (activeCounts (countsOf w) a0 a1).length := by simpa [activeCounts, countsOf] using hi
+    rw [List.getD_eq_getElem?_getD, List.getElem?_eq_getElem hl, activeCounts_getElem]
+    simp [countsOf]
+  rw [hac]
+  simp only [loopState, sliceLocals, List.getElem_mapIdx]
+  by_cases hwin : a0 ≤ i ∧ i < a1
+  · have : ¬ i < a0 := by omega
+    simp only [hwin, and_self, if_true, this, if_false, Int.toNat_natCast]
+    rw [List.take_of_length_le]
+    simp [sortedUnused_length]
+  · simp only [hwin, if_false]
+    simp
+
+theorem slice_total (w : World NodeIds) (a0 a1 : Nat) (h01 : a0 ≤ a1) :
+    (isum (((activeCounts (countsOf w) a0 a1).drop a0).take (a1 - a0))).toNat
+      = (sliceLocals w a0 a1).flatten.length := by
+  have hsum : ((((activeCounts (countsOf w) a0 a1).drop a0).take (a1 - a0))).sum
+      = (activeCounts (countsOf w) a0 a1).sum := by
+    apply sum_drop_take
+    · intro x hx
+      obtain ⟨i, hi, rfl⟩ := List.mem_iff_getElem.mp hx
+      have hi' : i < a0 := by
+        have := hi; simp only [List.length_take] at this; omega
+      rw [List.getElem_take, activeCounts_getElem]
+      have : ¬ (a0 ≤ i ∧ i < a1) := by omega
+      simp [this]
+    · intro x hx
+      obtain ⟨i, hi, rfl⟩ := List.mem_iff_getElem.mp hx
+      rw [List.getElem_drop, List.getElem_drop, activeCounts_getElem]
+      have : ¬ (a0 ≤ a0 + (a1 - a0 + i) ∧ a0 + (a1 - a0 + i) < a1) := by omega
+      rw [if_neg this]
+  rw [isum_eq_sum, hsum, activeCounts_eq, Refine.Lemmas.Comm.lensI_sum]
+  exact Int.toNat_natCast _
+
+theorem gatherActive_eq (w : World NodeIds) (a0 a1 : Nat) (h01 : a0 ≤ a1) :
+    gatherActive (countsOf w) a0 a1 (loopState w a0) = w.map fun _ => (sliceLocals w a0 a1).flatten := by
+  unfold gatherActive
+  simp only []
+  have hargs : ((loopState w a0).mapIdx fun r s =>
+        (⟨s.unused.take ((activeCounts (countsOf w) a0 a1).getD r 0).toNat, activeCounts (countsOf w) a0 a1,
+          List.replicate (isum (((activeCounts (countsOf w) a0 a1).drop a0).take (a1 - a0))).toNat 0⟩ : GatherV Int))
+      = Refine.Lemmas.Comm.gathervWorld (sliceLocals w a0 a1)
+          (fun _ => List.replicate (isum (((activeCounts (countsOf w) a0 a1).drop a0).take (a1 - a0))).toNat 0) := by
+    unfold Refine.Lemmas.Comm.gathervWorld
+    apply List.ext_getElem
+    · simp [loopState_length, sliceLocals_length]
+    · intro i h1 h2
+      have hi : i < w.length := by simpa [loopState_length] using h1
+      simp only [List.getElem_mapIdx]
+      rw [sliceLocal_elem w a0 a1 i hi]
+      congr 1
+      exact activeCounts_eq w a0 a1
+  rw [hargs, Refine.Props.C17.allgatherv_spec RefType.long rfl]
+  · simp [sliceLocals_length]
+  · intro r _
+    rw [List.length_replicate, slice_total w a0 a1 h01]
+
 end Refine.Lemmas.DistSync
